@@ -8,6 +8,9 @@ TB = ("Trusted: Lean 4.33.0 kernel; axioms propext/Quot.sound/Classical.choice o
       "working tree on every run (differential, exhaustive on the small axes, sampled elsewhere); Go stdlib semantics written into the model.")
 
 CLAIMS = {
+ "C05": dict(
+   text="Lean theorems (Properties/C05.lean): builder_extract - for every field list and FC3/FC4 target for which split() returns requests, the requests' fields are a permutation of the register fields (each exactly once) and, for every request, every device memory image, every spare capacity, strict or lenient mode and every reply of k>=1 delivered registers (k = quantity: the full conforming reply; k < quantity: the truncation clause) with the window inside the address space, ExtractFields equals the specification loop: each field in order with the value decoded DIRECTLY from the device memory at the field's own address/type/order when its registers were delivered, an error otherwise; corollaries: all fields delivered => every field reported with its direct value; strict mode fails as a whole iff some field is unreachable; lenient mode returns every field with exactly the unreachable ones failed. Built from C04 (accessor = addressed wire bytes), C06 (span inside window, permutation) and C13 (payload unchanged between fields). Tie to the code: 12k (thorough 600k) scenarios: random field multisets over several servers/units, memory images (binary and text with NULs), FC3/FC4 x TCP/RTU, strict/lenient, truncation at 1..125 registers; replies are encoded by the harness independently and must equal the library's own encoding; values compared with direct decoding of the memory.",
+   ref="DESIGN.md §3 C05", technique="Lean 4 proof (composition of C04, C06, C13; induction over the field list) + differential correspondence check"),
  "C06": dict(
    text="Lean theorems (Properties/C06.lean): split_ok - whenever the model of split() returns requests, the fields of all requests are a permutation of the requested-kind fields (every field exactly once, none of the other kind), and every request has a field, targets its fields' server and unit, contains every field's span in [start,start+q) over N, is tight at both ends, has 1<=q<=125/2000, and its packet is the read request of the target function for (unit,start,q) (bytes by C01); never_split - a group whose slots all end within the limit of its lowest address becomes exactly one batch; groups_partition - groups have pairwise different (server,unit,kind) keys. Proved by an invariant over the greedy fold on the sorted slot list, for every field list (no bound on length). Tie to the code: 40k (thorough 1.5M) field lists: all 14 types, clusters, gaps at limit-1/limit/limit+1, overlaps, duplicates, fields at both ends of the address space, several servers/units, invalid definitions, all 8 targets; the nine clauses are also checked directly on the implementation's output.",
    ref="DESIGN.md §3 C06", technique="Lean 4 proof (loop invariant by induction over the sorted slot list, permutation arguments) + differential correspondence check"),
